@@ -46,8 +46,9 @@ def _replay_s1(n_extra, recv_kind, belief=False):
             {'op': 'set_pool', 'pool': pool},
             {'op': 'mint', 'to': 'pool_manager', 'funds': [coin_j('uA', m['pm_balance_A']), coin_j('uB', m['pm_balance_B'])]},
             {'op': 'mint', 'to': 'sink', 'funds': [coin_j('uA', m['supply_A'] - m['pm_balance_A']), coin_j('uB', m['supply_B'] - m['pm_balance_B'])]},
-            {'op': 'mint', 'to': 'trader', 'funds': [coin_j('uA', m['offer'])]},
-            {'op': 'execute', 'contract': 'pool_manager', 'sender': 'trader', 'funds': [coin_j('uA', m['offer'])],
+            {'op': 'mint', 'to': 'trader', 'funds': [coin_j('uA', m['offer'])] + ([coin_j('uC', 7)] if m.get('_choices', {}).get('extra_coin', 0) == 1 else [])},
+            {'op': 'execute', 'contract': 'pool_manager', 'sender': 'trader',
+             'funds': [coin_j('uA', m['offer'])] + ([coin_j('uC', 7)] if m.get('_choices', {}).get('extra_coin', 0) == 1 else []),
              'msg': {'swap': {'ask_asset_denom': 'uB', 'belief_price': dec_j(m['belief_price_atomics']) if belief else None, 'max_slippage': dec_j(m['max_slippage_atomics']),
                               'receiver': recv, 'pool_identifier': 'p1'}}},
         ]
@@ -82,7 +83,14 @@ def _ob_s1(n_extra, recv_kind):
             I.assume(smt.Not(I.addr_valid('not-an-address')))
         ch = Chain(I, CONTRACTS)
         pre = b.snapshot()
-        st, resp = ch.execute('trader', PM, swap_msg('uB', 'p1', max_slippage=Some(tol), receiver=recv), [coin_v('uA', o)])
+        extra = I.choose(2, 'extra_coin') == 1         # a second coin attached to the swap: must be refused, never silently kept
+        if extra:
+            b.set('trader', 'uC', 7)
+        st, resp = ch.execute('trader', PM, swap_msg('uB', 'p1', max_slippage=Some(tol), receiver=recv), [coin_v('uA', o)] + ([coin_v('uC', 7)] if extra else []))
+        if extra:
+            I.observe('status', 'ok' if st == 'ok' else 'err')
+            I.check('swap_with_a_second_coin_refused', st != 'ok')
+            return
         if st != 'ok':
             I.outcome('rejected')
             # rejected: nothing changed (chain rollback) -- checked structurally by C20
